@@ -323,7 +323,7 @@ func (fr *Frame) loopHead(li *loopInfo, b *ssa.BasicBlock, phis []*ssa.Phi, pred
 		for n := range ms.Names {
 			set[n] = true
 		}
-		nst = st.havocSet(set)
+		nst = st.havocSetP(set, ms.Pfx)
 	}
 	for _, p := range phis {
 		v := fc.freshVal(p.Type(), fr.tagStr+p.Name()+"!"+sanitize(p.Comment))
